@@ -1,11 +1,13 @@
 /-
-  Driver of the `pair` world: replays an ops file through `Mx.Pair.step` and prints one
-  result line per op line.  Must stay import-free apart from Core/Driver modules.
+  Driver of the `pair` world: replays an ops file through `Mx.PairLedger.stepL` (= `Mx.Pair.step`
+  plus the per-account wallets of Core/PairLedger.lean) and prints one result line per op line.
+  Must stay import-free apart from Core/Driver modules.
 -/
 import MxModel.Core.Pair
+import MxModel.Core.PairLedger
 import MxModel.Driver.Proto
 
-open Mx Mx.Pair Mx.Proto
+open Mx Mx.Pair Mx.PairLedger Mx.Proto
 
 namespace Mx.PairDriver
 
@@ -104,7 +106,24 @@ def showOut (op : Op) (o : Out) : String :=
   let (p1, p2, l1, l2) := received op o
   s!"{o.v1} {o.v2} {o.v3} recv={p1},{p2} lk={l1},{l2}"
 
-def initOf (ws : List String) : St :=
+/-- initial endowment of every account the harness creates (`pow10(45)` of each pool token) -/
+def FUNDS : Nat := 10 ^ 45
+
+/-- the FIRST / SECOND amount of the `xf=` / `xs=` header entry (`amount,ctok,live`): what the
+    owner deposited into the trusted pair before the history starts -/
+def xAmount (ws : List String) (k : String) : Nat :=
+  match kv ws k with
+  | some v => match v.splitOn "," with
+    | a :: _ => a.toNat?.getD 1000000
+    | [] => 1000000
+  | none => 1000000
+
+/-- driver state: the ledger and the number of plain users (`accts = users ++ [owner]`) -/
+structure DSt where
+  l : L
+  n : Nat
+
+def initOf (ws : List String) : DSt :=
   let total := (kvNat ws "total").getD 300
   let special := (kvNat ws "special").getD 50
   let adder := match kvNat ws "adder" with
@@ -112,7 +131,39 @@ def initOf (ws : List String) : St :=
     | some a => some a
     | none => none
   let cap := (kvNat ws "cap").getD 65536
-  Pair.init total special adder cap
+  let n := (kvNat ws "users").getD 3
+  let funds := List.replicate n (FUNDS, FUNDS) ++ [(FUNDS - xAmount ws "xf", FUNDS - xAmount ws "xs")]
+  ⟨initL total special adder cap funds, n⟩
+
+/-- `PairWorld::user`: id 100 is the owner, `1..n` the users, anything else the first user -/
+def slot (n : Nat) (id : Nat) : Nat :=
+  if id = 100 then n else if 1 ≤ id ∧ id ≤ n then id - 1 else 0
+
+/-- the caller id of an op line (the owner for configuration / clock lines) -/
+def callerId : List String → Nat
+  | "addInitial" :: c :: _ => c.toNat?.getD 0
+  | "addLiq" :: u :: _ => u.toNat?.getD 0
+  | "removeLiq" :: u :: _ => u.toNat?.getD 0
+  | "swapIn" :: u :: _ => u.toNat?.getD 0
+  | "swapOut" :: u :: _ => u.toNat?.getD 0
+  | "swapNoFee" :: c :: _ => c.toNat?.getD 0
+  | "buyback" :: c :: _ => c.toNat?.getD 0
+  | _ => 100
+
+/-- `PairWorld::ensure` calls made before the transaction (whether or not it succeeds):
+    (caller id, first pool token?, amount) -/
+def topUps : List String → List (Nat × Bool × Nat)
+  | ["addInitial", c, a1, a2] =>
+      [(c.toNat?.getD 0, true, a1.toNat?.getD 0), (c.toNat?.getD 0, false, a2.toNat?.getD 0)]
+  | ["addLiq", u, a1, a2, _, _] =>
+      [(u.toNat?.getD 0, true, a1.toNat?.getD 0), (u.toNat?.getD 0, false, a2.toNat?.getD 0)]
+  | ["swapIn", u, d, a, _] => [(u.toNat?.getD 0, d = "ab", a.toNat?.getD 0)]
+  | ["swapOut", u, d, a, _] => [(u.toNat?.getD 0, d = "ab", a.toNat?.getD 0)]
+  | ["swapNoFee", u, d, a] => [(u.toNat?.getD 0, d = "ab", a.toNat?.getD 0)]
+  | _ => []
+
+def showAccts (l : List Acct) : String :=
+  ";".intercalate (l.map fun x => s!"{x.a},{x.b},{x.lp},{x.lkA},{x.lkB}")
 
 def view (s : St) : List String → Option String
   | ["amountOut", d, a] => do
@@ -129,22 +180,28 @@ def view (s : St) : List String → Option String
       pure s!"{a} {b}"
   | _ => none
 
-def handle (s : St) (line : String) : St × Option String :=
+def handle (s : DSt) (line : String) : DSt × Option String :=
   match words line with
   | "W" :: rest => (initOf rest, some (" ".intercalate ("W" :: rest)))
   | "O" :: n :: rest =>
+      -- the faucet runs first and stays even when the transaction fails
+      let l1 := runL s.l ((topUps rest).map fun t => LOp.fund (slot s.n t.1) t.2.1 t.2.2)
+      let s1 : DSt := { s with l := l1 }
       match parseOp rest with
-      | none => (s, some s!"R {n} err")
+      | none => (s1, some s!"R {n} err")
       | some op =>
-        match step s op with
-        | some (s', o) => (s', some s!"R {n} ok {showOut op o} | {showState s'}")
-        | none => (s, some s!"R {n} err")
+        match stepL l1 (.call (slot s.n (callerId rest)) op) with
+        | some (l', o) =>
+            ({ s with l := l' },
+             some s!"R {n} ok {showOut op o} | {showState l'.p} acct={showAccts l'.accts}")
+        | none => (s1, some s!"R {n} err")
   | "Q" :: n :: rest =>
-      match view s rest with
+      match view s.l.p rest with
       | some v => (s, some s!"V {n} ok {v}")
       | none => (s, some s!"V {n} err")
   | _ => (s, none)
 
 end Mx.PairDriver
 
-def main : IO Unit := Mx.Proto.mainLoop (Mx.Pair.init 300 50 none 65536) Mx.PairDriver.handle
+def main : IO Unit :=
+  Mx.Proto.mainLoop (Mx.PairDriver.initOf []) Mx.PairDriver.handle
